@@ -23,7 +23,7 @@ MultiOutCls(c) == c \in ({"DC", "Pan2", "In"} \cup ControlClasses)
 \* classes whose _optimize_graph performs dead code elimination
 PureCls(c) == c \in {"SinOsc", "LFSaw", "Impulse", "DC", "K2A", "A2K", "LinExp", "LPF", "UnaryOpUGen", "BinaryOpUGen"}
 Modelled(p) == \A n \in 1..Len(p.ins) :
-                  /\ p.ins[n].op \in {"gen", "un", "bin", "madd", "sum"}
+                  /\ p.ins[n].op \in ({"gen", "un", "bin", "madd", "sum"} \cup ListOps)
                   /\ p.ins[n].op = "gen" => ~ClassTab[p.ins[n].cls].wf
 
 (* graph state: nodes in creation order, ch = the definition's children slots (node id or 0),
@@ -128,6 +128,17 @@ Construct(p) ==
                                    [st |-> r.st, loc |-> Append(acc.loc, <<r.v>>), m |-> Append(acc.m, 0)]
               [] ins.op = "madd" -> LET r == MulAddNew(acc.st, args[1], args[2], args[3]) IN
                                     [st |-> r.st, loc |-> Append(acc.loc, <<r.v>>), m |-> Append(acc.m, 0)]
+              \* list operations expand channel by channel, in channel order, through the scalar constructors
+              [] ins.op \in ListOps ->
+                    LET r == FoldLeft(LAMBDA s, ch :
+                                 LET ci == ChanIns(ins, ch)
+                                     ca == [j \in 1..Len(ci.a) |-> operand(ci.a[j], acc.loc)]
+                                     one == CASE ci.op = "madd" -> MulAddNew(s.st, ca[1], ca[2], ca[3])
+                                              [] ci.op = "bin" -> BinNew(s.st, ci.sel, ca[1], ca[2])
+                                              [] ci.op = "un" -> UnNew(s.st, ci.sel, ca[1])
+                                 IN [st |-> one.st, vs |-> Append(s.vs, one.v)],
+                                 [st |-> acc.st, vs |-> <<>>], [ch \in 1..ins.nout |-> ch]) IN
+                    [st |-> r.st, loc |-> Append(acc.loc, r.vs), m |-> Append(acc.m, 0)]
               [] ins.op = "sum" -> LET r == FoldLeft(LAMBDA s, x : BinNew(s.st, "+", s.v, x), RV(acc.st, VC(0)), args) IN
                                    [st |-> r.st, loc |-> Append(acc.loc, <<r.v>>), m |-> Append(acc.m, 0)]
     IN [cb |-> cb, res |-> FoldLeft(step, [st |-> cb.st, loc |-> <<>>, m |-> <<>>], p.ins)]
